@@ -923,7 +923,7 @@ impl Run {
             "wall_s": wall,
             "violations": self.failures.len(),
         });
-        if !self.strict {
+        if !self.strict && std::env::var("HV_NO_EVIDENCE").is_err() {
             let dir = Path::new(VERIF_DIR).join("evidence");
             let _ = std::fs::create_dir_all(&dir);
             let path = dir.join(format!("{}.json", self.property));
